@@ -39,6 +39,7 @@ pub fn run(cx: &mut Ctx) {
     let mut r = Rng(0xc01_5eed ^ seed.wrapping_mul(0x9e3779b97f4a7c15));
     let mut diagrams: Vec<Graph> = (0..n).map(|k| match k % 5 { 0 => diagram(&mut r, false), 1 => diagram(&mut r, true), 2 => star(&mut r), 3 => gadget_farm(&mut r), _ => circuit_diagram(&mut r) }).collect();
     diagrams.extend(scalar_pieces());
+    diagrams.extend(crate::c04::gadget_pairs());      // hubs with phases 0 / pi / pi/2 (seed C04-F)
     let simps: Vec<(&str, fn(&mut Graph) -> bool)> = vec![
         ("id_simp", |g| id_simp(g)), ("local_comp_simp", |g| local_comp_simp(g)), ("spider_simp", |g| spider_simp(g)), ("pivot_simp", |g| pivot_simp(g)),
         ("gen_pivot_simp", |g| gen_pivot_simp(g)), ("scalar_simp", |g| scalar_simp(g)), ("flow_simp", |g| flow_simp(g)),
